@@ -47,6 +47,14 @@ class AutoScale(Unit):
                 int_dtype = True
             cases.append({"kind": kind, "v1": v1, "v2": v2, "H": H, "J": J, "fmt": r.choice(["coo", "csr", "csc"]),
                           "int_dtype": int_dtype})
+        # magnitudes far outside 2^+-62 (binary64 goes to 2^+-1000): the exponent is taken as it is, not clamped
+        for sgn in (1, -1):
+            v1 = [2.0 ** (-70 * sgn), 3.0 * 2.0 ** (80 * sgn), -(2.0 ** (100 * sgn)), 5.0 * 2.0 ** (-100 * sgn)]
+            v2 = [2.0 ** (-90 * sgn), -(2.0 ** (75 * sgn))]
+            J = [[2.0 ** (80 * sgn), 0.0, 2.0 ** (-65 * sgn), 0.0], [0.0, 3.0 * 2.0 ** (-120 * sgn), 0.0, 2.0 ** (64 * sgn)]]
+            H = [[0.0] * 4 for _ in range(4)]
+            for kind in (0, 1):
+                cases.append({"kind": kind, "v1": v1, "v2": v2, "H": H, "J": J, "fmt": "coo", "int_dtype": False})
         return cases
 
     def impl(self, case):
